@@ -14,8 +14,12 @@ import json, os
 from collections import Counter
 from .facts import callee_name
 
-ADAPTERS = {"rev", "skip", "take", "step_by", "skip_while", "take_while", "filter", "filter_map", "chain", "cycle", "nth", "last", "peekable", "zip", "flat_map", "flatten", "scan", "map_while", "fuse"}
-SEQ_OPS = {"insert", "swap_remove", "truncate", "drain", "split_off", "retain", "dedup", "reverse", "sort", "sort_by", "sort_by_key", "sort_unstable", "swap", "rotate_left", "rotate_right",
+# positional adapters only: predicate-carrying ones (filter, take_while, retain, drain(..) with a range ..) are how ordinary
+# refactorings spell an `if .. { continue }`, and their predicate is visible to the rules as a closure
+ADAPTERS = {"rev", "skip", "take", "step_by", "chain", "cycle", "nth", "last", "zip"}
+FAMILY = {"adapter:rev": "reversal", "op:reverse": "reversal", "op:sort": "sort", "op:sort_by": "sort", "op:sort_by_key": "sort", "op:sort_unstable": "sort", "op:sort_unstable_by": "sort", "op:sort_unstable_by_key": "sort",
+          "op:trim": "trim", "op:trim_start": "trim", "op:trim_end": "trim", "op:trim_left": "trim", "op:trim_right": "trim"}
+SEQ_OPS = {"insert", "swap_remove", "truncate", "split_off", "reverse", "sort", "sort_by", "sort_by_key", "sort_unstable", "sort_unstable_by", "sort_unstable_by_key", "swap", "rotate_left", "rotate_right",
            "trim", "trim_start", "trim_end", "trim_matches", "trim_start_matches", "trim_end_matches", "trim_left", "trim_right", "split_at", "saturating_sub", "wrapping_add", "wrapping_sub", "wrapping_mul", "capacity"}
 WIDTH = {"u8": 8, "i8": 8, "u16": 16, "i16": 16, "u32": 32, "i32": 32, "char": 32, "u64": 64, "i64": 64, "usize": 64, "isize": 64, "u128": 128, "i128": 128}
 KNOWN = os.path.join(os.path.dirname(os.path.abspath(__file__)), "known_adapters.json")
@@ -47,7 +51,14 @@ def counts(fb):
                 r = s.get("r", {})
                 if r.get("k") == "cast" and r.get("kind") == "IntToInt" and WIDTH.get(r.get("to"), 999) < WIDTH.get(r.get("from"), 0):
                     c["narrow:%s->%s" % (r["from"], r["to"])] += 1
-    return {k: dict(v) for k, v in out.items() if v}
+    fam = {}
+    for k, v in out.items():
+        c2 = Counter()
+        for kk, n_ in v.items():
+            c2[FAMILY.get(kk, kk)] += n_
+        if c2:
+            fam[k] = dict(c2)
+    return fam
 
 
 def rule_order(prefixes):
@@ -55,6 +66,10 @@ def rule_order(prefixes):
         fb = ctx.fb_all
         known = json.load(open(KNOWN, encoding="utf-8"))
         cur = counts(fb)
+        from .inline import known_functions
+        kf = known_functions()
+        # functions of the tree the rules were written for (new helpers are inlined into them; new code nothing calls is no one's subject)
+        cur = {f: v for f, v in cur.items() if f in kf or f in known}
         n = 0
         for fn in sorted(set(cur) | set(known)):
             if not any(p in fn for p in prefixes):
